@@ -42,6 +42,9 @@ def real_to_complex(z, axis=0):
     # (float32 of either byte order)
     is_single = z.dtype.kind == "f" and z.dtype.itemsize == 4
     out_dtype = np.complex64 if is_single else np.complex128
+    # Work in the precision of the result and in native byte order (scipy.fft
+    # computes half precision in single precision and refuses it byte-swapped).
+    z = z.astype(np.float32 if is_single else np.float64, copy=False)
     N = z.shape[axis]
 
     if N == 0:
